@@ -357,6 +357,16 @@ def apply_callable(I: Interp, callee, args, kwargs, fr, node=None):
                 return call_function(I, m, SV(callee.t, T.strip_opt(callee.ty)), args, kwargs, fr, node)
         if callee.ty.k in ("callable", "any"):
             return dynamic_call(I, callee, args, kwargs, fr, node)
+        if callee.ty.k == "type" and callee.ty.a and callee.ty.a[0].k == "obj":
+            # a class object taken from a registry: constructing it yields a new object of (a subclass of) the declared base;
+            # its fields are unknown, the construction is assumed to have no other effect
+            ci = callee.ty.a[0].a[0]
+            st.log.append(f"construction through a class object of type Type[{ci.name}]: a new object of that family with unknown fields, no other effect (assumed)")
+            r = st.new_ref(ci.cid)
+            cid = st.fresh("dyn_cid", smt.I)
+            st.assume(st.subclass_pred(cid, ci))
+            st.heap["cls"] = z3.Store(st.arr("cls"), r, cid)
+            return SV(smt.mk_ref(r), callee.ty.a[0])
         raise Refuse(f"call of symbolic value of type {callee.ty} at line {getattr(node, 'lineno', '?')}")
     raise Refuse(f"call of {type(callee).__name__}")
 
